@@ -661,11 +661,11 @@ PROPS = {
         "level": "other", "explanation": "", "assumptions": [],
     },
     "C18": {
-        "module": "DnsModel.Theorems.C18", "theorems": [],
+        "module": "DnsModel.Theorems.C18", "theorems": ["Dns.C18.steps_linear", "Dns.C18.erasure"],
         "families": [{"name": "steps-adversarial", "quick": 0, "thorough": 0, "fixed": True}, {"name": "steps", "quick": 3000, "thorough": 300000}],
         "oracle": oracle_c18, "nontrivial": nontrivial_parse_steps if False else (lambda c, a: True),
         "rule": "C01's packet stream plus families built to maximise work (chains 1..17 deep x tail labels x up to 400 records; 1000 SOA records naming a 255-byte name three times through pointers; 16000 options; lying counts); the hook's counter must equal the model's count and stay under the bound",
-        "level": "other", "explanation": "", "assumptions": [],
+        "level": "proof", "explanation": "", "assumptions": [],
     },
     "C12": {
         "module": "DnsModel.Theorems.C12",
@@ -742,7 +742,7 @@ MANIFEST_TEXT = {
             "note": NOTE + " thread_local! semantics assumed, probed by the schedules.", "technique": "Lean proof by induction on histories + exhaustive schedule correspondence"},
     "C17": {"text": "The model's functions are pure by construction; the real calls are executed alone, back to back and concurrently, and every output is compared byte for byte with the others and with the model's.",
             "note": NOTE, "technique": "history-based correspondence (alone / sequential / concurrent)"},
-    "C18": {"text": "Instrumented twin of the validator model counting one step per name-walk iteration, record and option; the real step counter (cfg-guarded hook) must equal the model's count on every case and stay below 80*len+1200, including on adversarial families." + PENDING,
+    "C18": {"text": "Lean theorems: the instrumented validator model (one step per name-walk iteration, record and option, also on failing paths) spends at most 80*len+1200 steps on every byte string (potential-function induction: <= 822 + consumed/4 steps per record, >= 11 bytes per accepted record), and erasing the counter gives back parse. The real step counter (cfg-guarded hook) must equal the model's count on every case, including adversarial families (pointer ladders, 17-deep chains x 400 records, 16000 options, lying counts).",
             "note": NOTE, "technique": "step-count correspondence via the verification hook + bound oracle"},
 }
 for _p, _spec in PROPS.items():
